@@ -75,7 +75,7 @@ def decode(b):
 
 
 def model_case(sc, obs):
-    opts = sc["opts"]
+    opts = sc.get("model_opts", sc["opts"])
     fk, farg = fmt_of_opts(opts)
     named = [n for n, _ in sc["files"] if n not in sc.get("unnamed", [])]
     fs = [(txt(n), (C("Some", txt(decode(b))) if decode(b) is not None else None)) for n, b in sc["files"]]
@@ -95,7 +95,7 @@ def compare(sc, obs, m):
     """returns None when model and implementation agree, else a description"""
     mfs, mout, mst = m
     st = 0 if obs["rc"] == 0 else (1 if obs["rc"] == 1 else 2)
-    if mst != st:
+    if (mst == 0) != (st == 0):
         return f"status: model {mst} impl {st}"
     mfiles = {}
     for name, content in mfs:
